@@ -21,9 +21,9 @@ make check >/dev/null 2>&1; T1=$(grep -c 'PASSED  \] 341 tests' test/test_all.lo
 build_demo; ./seed_demo_bin >/tmp/demo_with.txt 2>&1; D1=$?
 echo "tests_pass=$T1 demo_exit_with_change=$D1 ($(tail -1 /tmp/demo_with.txt))"
 echo "== without change"
-git stash -q -- htp; make >/dev/null 2>&1; build_demo; ./seed_demo_bin >/tmp/demo_wo.txt 2>&1; D0=$?
+git apply -R "$OUT/patch.diff"; make >/dev/null 2>&1; build_demo; ./seed_demo_bin >/tmp/demo_wo.txt 2>&1; D0=$?
 echo "demo_exit_without_change=$D0 ($(tail -1 /tmp/demo_wo.txt))"
-git stash pop -q; make >/dev/null 2>&1
+git apply "$OUT/patch.diff"; make >/dev/null 2>&1
 echo "== our check against a scratch copy with the patch"
 W=/tmp/wt-verify-$NAME
 git -C /repo worktree remove --force "$W" >/dev/null 2>&1
